@@ -621,7 +621,9 @@ class StateManager:
 
         print(f"Saving state to {path}")
         Path(path).parent.mkdir(exist_ok=True)
-        temp_path = Path(path).with_suffix(".temp")
+        # append (not replace) the suffix: a final name that already ends in
+        # ".temp" must not become its own temporary file
+        temp_path = Path(path).with_name(Path(path).name + ".temp")
 
         state_dict = {
             "_current": self._current,
